@@ -35,8 +35,9 @@ type PairOpts struct {
 	MaxRetries           int
 	DisableStandaloneSSE bool
 	AsyncDelete          bool
-	BodyLatency          func(req *http.Request, reqBody []byte) time.Duration // see InProc.BodyLatency
-	OAuth                auth.OAuthHandler                                     // streamable client: OAuthHandler (the server need not require authorization)
+	BodyLatency          func(req *http.Request, reqBody []byte) time.Duration    // see InProc.BodyLatency
+	Before               func(req *http.Request, n int64) (*http.Response, error) // see InProc.Before (installed before the first request)
+	OAuth                auth.OAuthHandler                                        // streamable client: OAuthHandler (the server need not require authorization)
 }
 
 // Pair is a connected client/server session pair.
@@ -159,7 +160,7 @@ func Connect(ctx context.Context, o PairOpts) (*Pair, error) {
 		}
 		h := mcp.NewStreamableHTTPHandler(func(*http.Request) *mcp.Server { return o.Server }, &ho)
 		p.H = h
-		p.InProc = &InProc{Handler: h, Log: o.Log, AsyncDelete: o.AsyncDelete, BodyLatency: o.BodyLatency}
+		p.InProc = &InProc{Handler: h, Log: o.Log, AsyncDelete: o.AsyncDelete, BodyLatency: o.BodyLatency, Before: o.Before}
 		ct := &mcp.StreamableClientTransport{Endpoint: "http://example.test/mcp", HTTPClient: p.InProc.Client(), MaxRetries: o.MaxRetries, DisableStandaloneSSE: o.DisableStandaloneSSE, OAuthHandler: o.OAuth}
 		cs, err := o.Client.Connect(ctx, maybeWrap(ct, o.WrapClient), copts)
 		if err != nil {
